@@ -134,6 +134,12 @@ def run_witness(w):
             return bool(recvs) and recvs[-1] == w['expect_last_recv']
         bad = not answered() and not answered()
         return {'violates': bad, 'required': w.get('required')}
+    if kind == 'recorded-session':
+        ev = replaytool.run_session([l for l in (w.get('lines') or [])])
+        return {'events': ev[-12:], 'violates': None, 'note': 'recorded session of a reference-model mismatch: re-run `python3 tools/refmodel.py` for the verdict; the events above are what the real code answers now', 'required': w.get('required')}
+    if kind in ('sock-stream', 'sock-surplus'):
+        w2 = gen_sock_correlation('C11', {'full': 'replay'})
+        return {'violates': w2 is not None and w2.get('kind') == kind, 'why': (w2 or {}).get('what'), 'required': w.get('required')}
     if kind == 'sock-correlation':
         def problem():
             got, eof = _sock(w['lines'])
@@ -317,11 +323,11 @@ def _slow(lines, k):
         else: out.append(l)
     return out
 
-def _sock_stable(lines, want):
+def _sock_stable(lines, want, scales=(3, 6)):
     """timing guard: a delivery whose answer differs from `want` is repeated twice with 3x and 6x longer pauses; only an
     answer that differs every time is reported (returns the last answer)"""
     got, eof = _sock(lines)
-    for k in (3, 6):
+    for k in scales:
         if got == want: break
         got, eof = _sock(_slow(lines, k))
     return got, eof
@@ -352,6 +358,8 @@ def sock_pipelines():
     P.append(('answered requests, then a header with a corrupted magic byte', 1048576, [f_set(b'a', b'1'), noop, bytes(bad)]))
     P.append(('quiet get hit at the very end', 1048576, [f_set(b'a', b'1', op=0x11), f_key(0x09, b'a')]))
     P.append(('quiet get hit, then quitq', 1048576, [f_set(b'a', b'1', op=0x11), f_key(0x0d, b'a'), hdr(0x17)]))
+    P.append(('append whose result comes close to the item limit', 1024, [f_set(b'k', b'a' * 995), f_app(0x0e, b'k', b'b' * 10), f_app(0x0f, b'k', b'c' * 10), f_key(0, b'k'), noop]))
+    P.append(('near-limit store followed by twenty pipelined gets', 8192, [f_set(b'n', b'v' * 8100)] + [f_key(0, b'n')] * 20 + [noop]))
     P.append(('setq x3 then get', 1048576, [f_set(b'a', b'1', op=0x11), f_set(b'b', b'2', op=0x11), f_set(b'c', b'3', op=0x11), f_key(0, b'b')]))
     return P
 
@@ -403,9 +411,9 @@ def gen_sock_faults(pid, f):
     cuts = [c for c in cuts if 0 <= c <= len(stream)]
     gen_sock_faults.last_count = 0
     def completed(c): return [fr for i, fr in enumerate(frames) if bounds[i + 1] <= c]
-    def check(lines, want, what):
+    def check(lines, want, what, scales=(3, 6)):
         gen_sock_faults.last_count += 1
-        got, eof = _sock_stable(lines, want)
+        got, eof = _sock_stable(lines, want, scales)
         if got != want:
             return {'kind': 'sock', 'lines': lines, 'expect_recv': want, 'what': what + ': the observing connection receives %s..., required %s...' % (got[:64], want[:64]),
                     'required': 'the observer sees exactly the store contents that the completely sent requests imply'}
@@ -442,6 +450,18 @@ def gen_sock_faults(pid, f):
     lines = ['rstconn 25', 'sleep 100', 'conn', 'send ' + b''.join(observer).hex(), 'recv 300']
     w = check(lines, _observer_expect([], observer), '25 connections reset right after connect, before anything was sent')
     if w: return w
+    # (2d) an oversized body whose bytes look like requests, delivered with pauses around the receive timeout: whatever
+    # the server does with the connection, the bytes of that body are never executed
+    inner = f_set(b'pwn', b'1') * 40
+    bigb = hdr(0x01, key=1, extras=8, body=9 + len(inner), opaque=0x0e0e0e0e) + b'\0' * 8 + b'k' + inner
+    for pause in (700, 1500):
+        c1, c2 = 33 + 36 * 8, 33 + 36 * 24      # cuts on boundaries of the frames inside the body
+        lines = ['limit 1024', 'timeout 1', 'send ' + bigb[:c1].hex(), 'sleep %d' % pause, 'send ' + bigb[c1:c2].hex(), 'sleep %d' % pause, 'send ' + bigb[c2:].hex(), 'sleep 200', 'conn',
+                 'send ' + (f_key(0, b'pwn') + noop).hex(), 'recv 300']
+        want = _observer_expect([], [f_key(0, b'pwn'), noop], limit=1024)
+        # the pauses ARE the scenario (they straddle the receive timeout): a disagreement is re-run with the same timing
+        w = check(lines, want, 'an oversized body that consists of SET frames, sent in three pieces %d ms apart (receive timeout 1 s)' % pause, scales=(1, 1))
+        if w: return w
     # (3) many faulted connections in a row (more than the connection limit of the driver, 8), then the observer
     part = stream[:bounds[1] + 30]
     lines = []
@@ -479,6 +499,11 @@ def gen_sock_correlation(pid, f):
         'unknown data type': hdr(0x01, key=1, extras=8, body=10, opaque=0x0badbad5, dt=7) + b'\0' * 8 + b'kv',
         'request magic 0x81': hdr(0x0a, opaque=0x0badbad6, magic=0x81),
     }
+    # every opcode that addresses a key, announcing key length 0
+    for op in (0x00, 0x01, 0x02, 0x03, 0x04, 0x05, 0x06, 0x09, 0x0c, 0x0d, 0x0e, 0x0f, 0x11, 0x12, 0x13, 0x14, 0x15, 0x16, 0x19, 0x1a):
+        ex = 8 if op in (1, 2, 3, 0x11, 0x12, 0x13) else (20 if op in (5, 6, 0x15, 0x16) else 0)
+        val = b'v' if op in (1, 2, 3, 0x0e, 0x0f, 0x11, 0x12, 0x13, 0x19, 0x1a) else b''
+        bads['opcode 0x%02x with key length 0' % op] = hdr(op, key=0, extras=ex, body=ex + len(val), opaque=0x0bad0000 + op) + b'\0' * ex + val
     gen_sock_correlation.last_count = 0
     for name, bad in bads.items():
         for deliver in ('one segment', 'malformed request in its own segment'):
@@ -497,12 +522,56 @@ def gen_sock_correlation(pid, f):
                     if fr['klen'] + fr['elen'] > fr['blen']: return 'response announces key %d + extras %d > body %d' % (fr['klen'], fr['elen'], fr['blen'])
                     while k < len(reqs) and not (reqs[k][1] == fr['op'] and reqs[k][7] == fr['opaque']): k += 1
                     if k == len(reqs): return 'response (opcode 0x%02x, opaque 0x%08x) answers no request sent on this connection (in order)' % (fr['op'], fr['opaque'])
+                    if k == len(reqs) - 1 and fr['status'] in (0, 1, 2, 6): return 'the malformed request (opaque 0x%08x) was executed: it is answered with status 0x%04x, which only the store produces' % (fr['opaque'], fr['status'])
                     k += 1
                 return None
             why = problem()
             if why and problem():      # timing guard: has to show twice
                 return {'kind': 'sock-correlation', 'lines': lines, 'sent': [x.hex() for x in sent], 'what': 'three valid requests followed by a request with %s (%s): %s' % (name, deliver, why),
                         'required': 'everything written is a sequence of whole response frames (magic 0x81, key + extras <= body), each carrying the opcode and opaque of a request sent on this connection, in request order'}
+    # a client that does not read for longer than the server's timeouts, then reads everything: the stream it gets must
+    # still be whole frames (a write that gave up mid-frame must not be followed by further frames)
+    bigv = b'q' * 1000000
+    lines = ['timeout 1', 'send ' + f_set(b'big', bigv, opaque=0x01010101).hex(), 'recv 300', 'sendn 48 ' + f_key(0, b'big', opaque=0x02020202).hex(), 'sleep 2600', 'send ' + hdr(0x0a, opaque=0x03030303).hex(), 'recv 1500']
+    gen_sock_correlation.last_count += 1
+    def stream_problem():
+        import subprocess
+        r = subprocess.run([replaytool.REPLAY_BIN, 'sock'], input='\n'.join(lines) + '\n', capture_output=True, text=True, timeout=120)
+        outl = [l for l in r.stdout.split('\n') if l]
+        recvs = [l[5:] for l in outl if l.startswith('recv ')]
+        eof = outl and outl[-1] == 'eof'
+        if len(recvs) < 2: return None
+        b = bytes.fromhex(recvs[1])
+        i = 0
+        while i + 24 <= len(b):
+            magic, op, klen, elen, dt, status, blen, opaque, cas = struct.unpack('>BBHBBHIIQ', b[i:i + 24])
+            # every header in the stream has to be one of the two responses that were asked for
+            if magic != 0x81 or (opaque, blen) not in ((0x02020202, 1000004), (0x03030303, 0)):
+                return 'at byte %d of the response stream there is no response header (magic 0x%02x, opaque 0x%08x, body length %d): a write that gave up mid-frame was followed by further frames' % (i, magic, opaque, blen)
+            if i + 24 + blen > len(b):
+                return None if eof else 'the last frame is incomplete and the connection is still open'
+            i += 24 + blen
+        return None
+    why = stream_problem()
+    if why and stream_problem():
+        return {'kind': 'sock-stream', 'lines': lines, 'what': 'a client requests a 1 MB item 48 times, does not read for 2.6 s (receive/write timeout 1 s), then reads: %s' % why,
+                'required': 'whatever a connection receives is a sequence of whole response frames, possibly cut off by the end of the connection'}
+    # more connections than the connection limit (8 in the driver): the surplus one gets nothing it did not ask for
+    lines = []
+    for _ in range(8): lines += ['send ' + hdr(0x0a, opaque=0x05050505).hex(), 'conn_keep']
+    lines += ['send ' + hdr(0x0a, opaque=0x06060606).hex(), 'recv 500']
+    gen_sock_correlation.last_count += 1
+    def surplus_problem():
+        got, eof = _sock(lines)
+        frs, err = _frames_of(bytes.fromhex(got))
+        if err: return err
+        for fr in frs:
+            if fr['magic'] != 0x81 or fr['opaque'] != 0x06060606 or fr['op'] != 0x0a: return 'the ninth connection receives a frame (opcode 0x%02x, opaque 0x%08x, status 0x%04x) that answers none of its requests' % (fr['op'], fr['opaque'], fr['status'])
+        return None
+    why = surplus_problem()
+    if why and surplus_problem():
+        return {'kind': 'sock-surplus', 'lines': lines, 'what': 'nine connections under a connection limit of eight: %s' % why,
+                'required': 'every frame a connection receives answers a request it sent'}
     return None
 gen_sock_correlation.last_count = 0
 
@@ -759,6 +828,9 @@ gen_steps_lin.last_count = 0
 # Bounded stand-ins registered per property in specs/properties.json (`bounded_twins`): for functions that no contract
 # within reach covers.  Labelled bounded in the evidence; never counted as proved.
 BOUNDED_TWINS = {
+    'correlation': {'gen': gen_sock_correlation, 'fn': 'the accept loop and the write path of the server (memc_tcp.rs::run and what it spawns are outside any contract)',
+                    'bound': 'three valid requests followed by one of 26 malformed requests, in one segment / in its own segment; a reader that pauses beyond the timeouts; nine connections under a limit of eight (oracle independent of the code)',
+                    'what': 'everything a connection receives is a sequence of whole response frames, each correlated (opcode, opaque) with a request it sent, in order; a malformed request is never answered with success'},
     'slow_reader': {'gen': gen_sock_slow_reader, 'fn': 'the write path across connections (no contract relates two connections)',
                     'bound': 'one scenario over TCP: a client requests a 1 MB item 64 times without reading; a second connection must get its noop answered within 1.5 s',
                     'what': 'a client that does not read its responses blocks only itself'},
